@@ -1,5 +1,5 @@
 -------------------------- MODULE SignPipeline_Gen --------------------------
 EXTENDS SignPipeline, Json
 CONSTANT ExportLen
-Export == Len(rounds) = ExportLen => PrintT("BEH " \o ToJson([type |-> typ, mode |-> mode, rounds |-> rounds, nsigs |-> Len(sigs), probe |-> probe]))
+Export == Len(rounds) = ExportLen => PrintT("BEH " \o ToJson([type |-> typ, mode |-> mode, variant |-> variant, rounds |-> rounds, nsigs |-> Len(sigs), probe |-> probe]))
 =============================================================================
